@@ -219,11 +219,15 @@ def reference(scn, trace):
                     if a not in completed:
                         bad.append((f"{ev}-before-completion", l))
                     pending.pop(fut, None)
+                if ev == "destroyed":
+                    cur.pop(fut, None)
+                    abort_since.pop(fut, None)
                 if ev == "result":
                     a = cur.get(fut)
-                    exp = (a * 100 + starts[a][1]) if a in starts else None
-                    if exp is None or int(t[4]) != exp if t[4].lstrip("-").isdigit() else True:
-                        bad.append(("wrong-result", l + f" expected={exp}"))
+                    if a in starts:       # (the result of a never-started future is unspecified)
+                        exp = a * 100 + starts[a][1]
+                        if not t[4].lstrip("-").isdigit() or int(t[4]) != exp:
+                            bad.append(("wrong-result", l + f" expected={exp}"))
             elif ev == "query":
                 fut = t[3]
                 kv = dict(x.split("=") for x in t[4:])
@@ -269,28 +273,295 @@ def classify(bad, trace):
     return cls
 
 
-if __name__ == "__main__":
-    # ad-hoc experiment:  python3 tools/areas/future.py <harness exe> <n>
-    exe, n = sys.argv[1], int(sys.argv[2])
-    scn = Scn([["s0:11:5", "j0", "r0", "q0"], ["s1:12:6", "a1", "j1", "q1"]], q=2)
-    reqs = [scn.request("rand", s) for s in range(1, n + 1)]
-    t0 = time.time()
+
+# ---- one batch = one harness process + one driver process ------------------------------------------------
+def summarize(scn, req, trace, mo, want_enabled):
+    """-> dict(verdict, steps, bad, sig, diff, choices)"""
+    iv = impl_view(trace)
+    d = first_diff(iv, mo)
+    bad = reference(scn, trace)
+    v = next((l.split()[1] for l in trace if l.startswith("V ")), "none")
+    steps = sum(1 for l in trace if l.startswith("S "))
+    r = {"req": req, "verdict": v, "steps": steps, "bad": bad[:3], "sig": classify(bad, trace) if bad else None, "diff": None,
+         "choices": None, "ops": {}}
+    if d:
+        k = d[0]
+        r["diff"] = (k, d[1], d[2], iv[max(0, k - 5):k + 1], mo[max(0, k - 5):k + 1])
+    ch = []
+    ops = {}
+    for l in trace:
+        if l.startswith("S "):
+            t = l.split()
+            ch.append((int(t[1]), tuple(int(x) for x in t[2][3:].split(",") if x)))
+        elif l.startswith("O "):
+            k2 = l.split()[1]
+            ops[k2] = ops.get(k2, 0) + 1
+    r["ops"] = ops
+    r["nthreads"] = 1 + sum(1 for l in trace if " create t" in l)
+    if want_enabled or bad or d:
+        r["choices"] = ch
+    r["fin"] = next((l for l in trace if l.startswith("F ")), "")
+    return r
+
+
+_EXE = None
+
+
+def batch(args):
+    exe, scn_key, specs, repaired, want_enabled = args
+    scn = SCN_CACHE[scn_key] if scn_key in SCN_CACHE else parse_request("run " + scn_key)[0]
+    reqs = [scn.request(pol, seed, bound, prefix) for (pol, seed, bound, prefix) in specs]
     traces, err = run_requests(exe, reqs)
-    print("harness", time.time() - t0)
-    t0 = time.time()
-    outs = run_driver([driver_lines(scn, tr, False) for tr in traces])
-    print("driver", time.time() - t0)
-    nd = 0
-    for tr, mo in zip(traces, outs):
-        d = first_diff(impl_view(tr), mo)
-        b = reference(scn, tr)
-        if b:
-            print("REF", b[:2])
-        if d:
-            nd += 1
-            if nd <= 3:
-                i = d[0]
-                print("DIFF at", d)
-                print("  impl :", impl_view(tr)[max(0, i - 6):i + 2])
-                print("  model:", mo[max(0, i - 6):i + 2])
-    print("diffs", nd, "of", len(traces))
+    outs = run_driver([driver_lines(scn, tr, repaired) for tr in traces])
+    return [summarize(scn, rq, tr, mo, want_enabled) for rq, tr, mo in zip(reqs, traces, outs)]
+
+
+SCN_CACHE = {}
+
+
+def exact_request(scn, r):
+    """request line that replays a run deterministically (the full choice list as forced prefix)"""
+    pre = [c for c, _ in (r["choices"] or [])]
+    return scn.request("np", 1, 20000, pre, flush=1)
+
+
+# ---- scenario generators ---------------------------------------------------------------------------------
+def small_scenarios():
+    """the exhaustively scheduled scope: <= 2 clients x <= 2 jobs, queue sizes 1, 2, 4"""
+    out = []
+    out.append(Scn([["s0:11:5", "r0", "q0"]], q=1))
+    out.append(Scn([["s0:11:5", "s0:12:6", "r0"]], q=1))
+    out.append(Scn([["s0:11:5", "j0", "q0"], ["S1:21:6", "A1", "J1", "Q1"]], q=1))
+    out.append(Scn([["s0:11:5", "s1:12:6", "r1", "r0"], ["s2:21:7", "r2"]], q=1))
+    out.append(Scn([["s0:11:5", "s0:12:6"], ["s1:21:7", "s1:22:8"]], q=1))
+    out.append(Scn([["s0:11:5", "r0", "d0"], ["s1:21:7", "a1", "r1", "q1"]], q=2))
+    out.append(Scn([["s0:11:5", "s1:12:6", "j0", "j1"], ["s2:21:7", "s3:22:8", "j3", "j2"]], q=2, tick=1100, mn=0))
+    out.append(Scn([["s0:11:5", "j0"], ["S1:21:7", "J1"]], q=4, lazy=1))
+    out.append(Scn([["s0:11:5", "s1:12:6", "j0", "j1"], ["s2:21:7", "s3:22:8", "j3", "j2"]], q=1, tick=1100, mn=1, mx=3))
+    return out
+
+
+def random_scenario(rng):
+    nclients = rng.choice([1, 2, 2, 2, 3])
+    scripts, nextf, cid = [], 0, 10
+    for ci in range(nclients):
+        nf = rng.choice([1, 1, 2, 3])
+        futs = []
+        for _ in range(nf):
+            if nextf >= 8:
+                break
+            futs.append((rng.choice("fffg"), nextf))
+            nextf += 1
+        if not futs:
+            futs = [("f", 7)]
+        sc, started = [], set()
+        for _ in range(rng.choice([2, 3, 4, 6, 8])):
+            kind, f = rng.choice(futs)
+            up = kind == "g"
+            k = rng.random()
+            if k < 0.45 or f not in started:
+                cid += 1
+                sc.append(f"{'S' if up else 's'}{f}:{cid}:{rng.randrange(0, 10)}")
+                started.add(f)
+            elif k < 0.62:
+                sc.append(f"{'J' if up else 'j'}{f}")
+            elif k < 0.75 and not up:
+                sc.append(f"r{f}")
+            elif k < 0.85:
+                sc.append(f"{'A' if up else 'a'}{f}")
+            elif k < 0.95:
+                sc.append(f"{'J' if up else 'j'}{f}")
+                sc.append(f"{'Q' if up else 'q'}{f}")
+            else:
+                sc.append(f"{'D' if up else 'd'}{f}")
+                started.discard(f)      # reading the result of a future that was never started is the caller's error
+        scripts.append(sc)
+    return Scn(scripts, q=rng.choice([1, 1, 2, 2, 4, 8]), mn=rng.choice([0, 0, 1, 2]), mx=rng.choice([3, 3, 4]),
+               lazy=1 if rng.random() < 0.15 else 0, tick=rng.choice([0, 0, 300, 700, 1100, 2100]), sp=rng.choice([0, 0, 0, 1, 2]))
+
+
+# ---- exploration -----------------------------------------------------------------------------------------
+def explore(ctx, exe, pool, repaired, stats, on_result):
+    quick = ctx.tier == "quick"
+    rng = ctx.rng
+    jobs = []
+
+    def submit(scn, specs, want_enabled=False, chunk=60):
+        SCN_CACHE[scn.key()] = scn
+        for i in range(0, len(specs), chunk):
+            jobs.append((scn, pool.submit(batch, (str(exe), scn.key(), specs[i:i + chunk], repaired, want_enabled)), want_enabled))
+
+    # corpus: exact replays of past failures
+    for h in C.load_corpus(ctx.prop):
+        for line in h:
+            if line.startswith("run "):
+                scn, pol, seed, bound, pre = parse_request(line)
+                submit(scn, [(pol, seed, bound, tuple(pre))])
+                stats["corpus"] += 1
+    # deviation-bounded exhaustive schedules of the small scope
+    smalls = small_scenarios()
+    depth = 1 if quick else 2
+    budget2 = 0 if quick else 14000          # per scenario cap of the second wave (sampled beyond)
+    wave = []
+    for scn in smalls:
+        submit(scn, [("np", 1, 6000, ())], want_enabled=True)
+    exhaustive_runs = 0
+    level = 0
+    pending = list(jobs)
+    jobs.clear()
+    frontier = []
+    while pending:
+        nxt = []
+        for scn, fut, we in pending:
+            for r in fut.result():
+                on_result(scn, r, "exhaustive" if we else "corpus")
+                if we:
+                    exhaustive_runs += 1
+                    frontier.append((scn, r))
+        pending = []
+        if level < depth and frontier:
+            level += 1
+            per_scn = {}
+            for scn, r in frontier:
+                ch = r["choices"] or []
+                base = len(parse_request(r["req"])[4])
+                for k in range(base, len(ch)):
+                    c, en = ch[k]
+                    for u in en:
+                        if u != c:
+                            per_scn.setdefault(scn.key(), (scn, []))[1].append(("np", 1, 6000, tuple(x for x, _ in ch[:k]) + (u,)))
+            frontier = []
+            for key, (scn, specs) in per_scn.items():
+                if level == 2 and len(specs) > budget2:
+                    stats["exhaustive_sampled"] = True
+                    rng.shuffle(specs)
+                    specs = specs[:budget2]
+                submit(scn, specs, want_enabled=(level < depth))
+            pending = list(jobs)
+            jobs.clear()
+    stats["exhaustive_runs"] = exhaustive_runs
+    stats["exhaustive_depth"] = depth
+    # random schedules: fixed stress scenarios + generated scenarios
+    stress = [
+        Scn([["s0:11:5", "s0:12:5", "s0:13:5"], ["s1:21:6", "s1:22:6", "s1:23:6"]], q=1),
+        Scn([["s0:11:5", "s0:12:7", "r0", "d0", "s0:13:1", "q0", "r0", "q0"], ["S1:21:6", "Q1", "J1", "Q1", "s2:31:2", "a2", "r2", "q2"]], q=2, lazy=1),
+        Scn([["s0:11:5", "s1:12:7", "s2:13:1", "j0", "j1", "j2"], ["s3:21:6", "s4:22:1", "j3", "j4"]], q=1, tick=1100, sp=1, mn=1, mx=4),
+        Scn([["s0:11:5", "s1:12:7", "s2:13:1", "j0", "j1", "j2"], ["s3:21:6", "s4:22:1", "j3", "j4"], ["s5:31:1", "r5"]], q=4, tick=700, sp=2, mx=3),
+    ]
+    nstress = 400 if quick else 6000
+    for scn in stress:
+        submit(scn, [("rand", rng.randrange(1, 10 ** 9), 6000, ()) for _ in range(nstress)])
+    nscn = 250 if quick else 3000
+    per = 12 if quick else 30
+    for _ in range(nscn):
+        scn = random_scenario(rng)
+        submit(scn, [("rand", rng.randrange(1, 10 ** 9), 6000, ()) for _ in range(per)] + [("np", 1, 6000, ())], chunk=per + 1)
+    for scn, fut, we in jobs:
+        for r in fut.result():
+            on_result(scn, r, "random")
+    jobs.clear()
+
+
+ASSUMPTIONS = [
+    "sequentially consistent atomics (the controlled scheduler and the model interleave whole atomic operations; weak-memory effects on the plain volatile reads are outside)",
+    "scheduling points of the implementation run are the atomic operations and POSIX calls (plain volatile reads happen together with the preceding scheduling point); the Lean theorems quantify over the finer interleaving of every single shared access",
+    "simulated POSIX semantics of harness/future/sched.cpp = the model's: non-recursive mutex ownership, condition variable wait set with broadcast waking all current waiters and budgeted spurious wake-ups, thread create/join/exit, virtual monotone clock",
+    "each Future object is used by one client thread (the class is not thread-safe for concurrent clients of one object); started functions terminate and do not wait on other futures",
+    "liveness under weak fairness is not decided by schedules of bounded length: the scheduler verdict is deadlock (no enabled thread) or step bound; usize ticket wrap-around at 2^64 is outside the model",
+]
+
+
+def check(ctx):
+    ctx.assumptions += ASSUMPTIONS
+    proof_ok = C.proof_stage(ctx, PROPS, [DRIVER], leanchecker=(ctx.tier == "thorough"))
+    exe = build(ctx)
+    if exe is None or not C.driver_path(DRIVER).exists():
+        return
+    repaired = True
+    stats = {"corpus": 0, "runs": 0, "steps": 0, "verdicts": {}, "diffs": 0, "classes": {}, "ops": {}, "maxthreads": 0, "exhaustive_sampled": False}
+    found = {}       # signature -> (steps, scn, r)
+    diffs = []
+    distinct = set()
+    samples = []
+
+    def on_result(scn, r, stream):
+        stats["runs"] += 1
+        stats["steps"] += r["steps"]
+        stats["verdicts"][r["verdict"]] = stats["verdicts"].get(r["verdict"], 0) + 1
+        stats["maxthreads"] = max(stats["maxthreads"], r.get("nthreads", 0))
+        for k, v in r["ops"].items():
+            stats["ops"][k] = stats["ops"].get(k, 0) + v
+        if r["steps"] >= 20:
+            distinct.add((scn.key(), r["steps"], r["fin"], tuple(sorted(r["ops"].items()))))
+        if len(samples) < 6 and stats["runs"] % 997 == 1:
+            samples.append(r["req"][:300])
+        if r["sig"]:
+            stats["classes"][r["sig"]] = stats["classes"].get(r["sig"], 0) + 1
+            if r["sig"] not in found or r["steps"] < found[r["sig"]][0]:
+                found[r["sig"]] = (r["steps"], scn, r)
+        if r["diff"] and not r["sig"]:
+            stats["diffs"] += 1
+            if len(diffs) < 3:
+                diffs.append((scn, r))
+        elif r["diff"]:
+            stats["diffs_with_violation"] = stats.get("diffs_with_violation", 0) + 1
+
+    try:
+        with cf.ProcessPoolExecutor(C.NCPU) as pool:
+            explore(ctx, exe, pool, repaired, stats, on_result)
+    finally:
+        try:
+            exe.unlink()
+        except OSError:
+            pass
+    ctx.cov["evaluations"] = stats["steps"]
+    ctx.cov["traces_validated_against_impl"] = stats["runs"]
+    ctx.cov["distinct_nontrivial"] = len(distinct)
+    ctx.cov["op_histogram"] = stats["ops"]
+    ctx.cov["samples"] = samples
+    ctx.cov["verdicts"] = stats["verdicts"]
+    ctx.cov["violation_classes"] = stats["classes"]
+    ctx.cov["max_threads_in_a_run"] = stats["maxthreads"]
+    ctx.cov["exhaustive"] = False
+    ctx.cov["exhaustive_scope"] = (f"{len(small_scenarios())} scenarios (<= 2 clients x <= 2 calls, queue sizes 1/2/4, lazy pool, retire clock): every schedule with "
+                                   f"<= {stats['exhaustive_depth']} deviation(s) from the non-preemptive default at any scheduling point"
+                                   f"{' (second wave sampled to 14000 per scenario)' if stats['exhaustive_sampled'] else ''}: {stats['exhaustive_runs']} runs")
+    ctx.cov["rule"] = ("corpus replays + deviation-bounded exhaustive schedules of the small scope + random schedules (xorshift seeds from VERIF_SEED) of 4 stress scenarios "
+                       "and of generated scenarios (1-3 clients, 1-3 futures each, start/join/result/abort/query/destroy, queue 1..8, min 0..2, max 3..4, lazy pool, clock ticks, "
+                       "spurious wake-ups); evaluations = scheduler steps replayed on the model; distinct_nontrivial = distinct (scenario, step count, final summary, op histogram) of runs with >= 20 steps")
+    ctx.cov["open_statements"] = OPEN_STATEMENTS
+    ctx.log(f"{stats['runs']} runs, {stats['steps']} scheduler steps, verdicts {stats['verdicts']}, violation classes {stats['classes']}, model diffs {stats['diffs']}")
+    for sig, (steps, scn, r) in sorted(found.items()):
+        txt = exact_request(scn, r) + "\n# schedule found as: " + r["req"][:400] + "\n# " + " ; ".join(f"{c}: {m}" for c, m in r["bad"]) + "\n# " + r["fin"] + "\n"
+        ctx.violation(f"implementation violates C10 under the controlled scheduler: {sig} ({stats['classes'][sig]} of {stats['runs']} runs)", txt,
+                      signature=sig)
+    for scn, r in diffs:
+        k, a, b, ia, ma = r["diff"]
+        txt = (exact_request(scn, r) + f"\n# first disagreement at trace line {k}\n# impl : {a}\n# model: {b}\n# impl context : {ia}\n# model context: {ma}\n")
+        ctx.broken.append("correspondence future-sched: implementation trace and Lean model differ")
+        ctx.violation("correspondence stream 'future-sched' no longer checks (real thread pool under the controlled scheduler vs Lean model); the independent reference found no failing input on that run",
+                      txt, no_input=True)
+        break
+
+
+OPEN_STATEMENTS = []
+
+
+def replay(ctx, path):
+    lines = [l for l in C.parse_replay(path) if l.startswith("run ")]
+    exe = build(ctx)
+    C.lake_build([DRIVER])
+    if exe is None:
+        return
+    for line in lines:
+        scn = parse_request(line)[0]
+        traces, err = run_requests(exe, [line])
+        mo = run_driver([driver_lines(scn, traces[0], True)])[0]
+        r = summarize(scn, line, traces[0], mo, False)
+        print("\n".join(impl_view(traces[0])[-40:]))
+        print(f"verdict={r['verdict']} steps={r['steps']} reference={r['bad']} model-diff={r['diff']}")
+        if r["sig"]:
+            ctx.violation(f"replay: {r['sig']}", line + "\n# " + " ; ".join(f"{c}: {m}" for c, m in r["bad"]) + "\n", signature=r["sig"])
+        elif r["diff"]:
+            ctx.violation("replay: implementation vs model", line + f"\n# {r['diff'][:3]}\n", no_input=True)
+    exe.unlink()
